@@ -27,7 +27,6 @@ package pptx
 // character bullet or an indented paragraph without numbering a bullet item; buNone switches both off ----
 //@ func (*Reader) extractParagraph results (res)
 //@   property C15, C02
-//@   flags nosafety
 //@   requires !isnil(p)
 //@   ensures level_kept_within_the_drawingml_range: !isnil(p.PPr) && 0 <= p.PPr.Lvl && p.PPr.Lvl <= maxParagraphLevel ==> res.Level == p.PPr.Lvl
 //@   ensures level_is_bounded: 0 <= res.Level && res.Level <= maxParagraphLevel
@@ -53,7 +52,6 @@ package pptx
 //@ spec rec func pptxBlocks(bs []TextBlock, n int, titles bool, exF bool, exH bool) int = n <= 0 ? 0 : pptxBlocks(bs, n - 1, titles, exF, exH) + (pptxSkipped(bs[n-1], titles, exF, exH) ? 0 : pptxParas(bs[n-1].Paragraphs, len(bs[n-1].Paragraphs)))
 //@ func (*Reader) TextWithOptions results (txt, err)
 //@   property C11
-//@   flags nosafety
 //@   count written: WriteString(s) when $ord == 6
 //@   loop 1:
 //@     step every_eligible_paragraph_of_the_slide_is_written: written == prev(written) + pptxBlocks(slide.Content, len(slide.Content), opts.IncludeTitles, opts.ExcludeFooters, opts.ExcludeHeaders)
